@@ -47,6 +47,8 @@ def cases(tier, seed):
         o = scat.gen_optics(rng, pol="x")
         s = scat.gen_spheroid(rng, o, xmax=5.0, aspect=(0.3, 3.0)) if i % 2 == 0 else scat.gen_cylinder(rng, o, xmax=4.0, aspect=(0.5, 2.0))
         s["c"] = [0.0, 0.0, 0.0]
+        if s["t"] == "cylinder" and i % 8 == 3:
+            s["h"] = s["d"]          # diameter = height exactly (aspect parameter 1 without being a sphere)
         s["rot"] = [float(rng.uniform(0, 2 * math.pi)), float(rng.uniform(0.05, math.pi - 0.05)), float(rng.uniform(0, 2 * math.pi))]
         if i % 4 == 1:
             # particle azimuth exactly on a detector azimuth (0, pi/2, pi): what a pixel grid aligned with the particle produces
